@@ -99,7 +99,7 @@ def gen_case(rng):
     style_mode = str(rng.choice(["untouched", "kwargs", "initialised", "label", "model3d_trace"]))
     override = str(rng.choice(["none", "position", "style_label", "style_opacity", "geometry", "style_dict",
                                "style_dict_label", "style_dict_nested", "bad_position", "bad_style", "bad_style_value",
-                               "bad_geometry", "uncopyable"]))
+                               "bad_geometry", "uncopyable", "position_own", "position_own_reversed", "attribute_own"]))
     return {"spec": spec, "style_mode": style_mode, "with_parent": bool(rng.random() < 0.4), "override": override,
             "mutation": str(rng.choice(MUTATIONS)), "direction": str(rng.choice(["orig", "copy"])),
             "mut_seed": int(rng.integers(0, 2**31))}
@@ -141,6 +141,17 @@ def override_kwargs(case, obj):
     o = case["override"]
     if o == "position":
         return {"position": (7.0, 8.0, 9.0)}
+    if o in ("position_own", "position_own_reversed"):
+        # the override is an array the original itself handed out (its position property, or a view of it):
+        # the copy must store its own data
+        v = obj.position
+        return {"position": v[::-1] if (o.endswith("reversed") and np.ndim(v) == 2) else v}
+    if o == "attribute_own":
+        for a in ("vertices", "dimension", "pixel", "polarization", "moment"):
+            v = getattr(obj, a, None)
+            if isinstance(v, np.ndarray) and type(obj).__name__ != "TriangularMesh":
+                return {a: v}
+        return {"position": obj.position}
     if o == "style_label":
         return {"style_label": "overridden"}
     if o == "style_opacity":
